@@ -301,6 +301,10 @@ var c11Templates = []c11Tmpl{
 	{key: "build seqboot gz", args: "build seqboot -n 2 -o boot --gz {in}", in: "nt", seeded: true},
 	{key: "build seqboot tar", args: "build seqboot -n 2 -o boot --tar {in}", in: "nt", seeded: true},
 	{key: "build seqboot partition", args: "build seqboot -n 2 -o boot --partition part.txt --out-partition part.out {in}", in: "nt", seeded: true},
+	{key: "build seqboot missing directory", args: "build seqboot -n 2 -o nodir/boot {in}", in: "nt", seeded: true},
+	{key: "build seqboot onto a directory", args: "build seqboot -n 3 -o boot {in}", in: "nt", seeded: true},
+	{key: "divide missing directory", args: "divide -o nodir/div {in}", in: "nt"},
+	{key: "reformat missing directory", args: "reformat phylip -o nodir/out.phy {in}", in: "nt"},
 	{key: "build distboot", args: "build distboot -n 3 -m k2p -o dist.txt {in}", in: "nt", seeded: true},
 	{key: "build distboot protein", args: "build distboot -n 2 -m jtt {in}", in: "aa", seeded: true},
 }
@@ -582,6 +586,9 @@ func (c11) Gen(rs uint64, tier string, race bool) interface{} {
 			t.in = "nt"
 		}
 	}
+	if t.key == "build seqboot onto a directory" {
+		c.Files["boot1.fa/keep"] = "the name of the second replicate is taken by a directory\n"
+	}
 	c.Key = t.key
 	c.Seeded = t.seeded
 	in := "-i nt.fa"
@@ -743,6 +750,9 @@ func (c *C11Case) runCLI(cfg cliCfg, args []string, extra map[string][]byte, lef
 	defer os.RemoveAll(dir)
 	inputs := map[string]bool{}
 	for n, s := range c.Files {
+		if strings.Contains(n, "/") {
+			os.MkdirAll(filepath.Dir(filepath.Join(dir, n)), 0755)
+		}
 		os.WriteFile(filepath.Join(dir, n), []byte(s), 0644)
 		inputs[n] = true
 	}
